@@ -2,6 +2,7 @@
 import json
 
 from .. import sim as S
+from .. import nodetrace as NT
 from ..core import ToolError
 
 CFG = """CONSTANTS
@@ -84,6 +85,7 @@ def run(ctx):
         # ... and the node keeps voting, producing, repairing, finalizing (progress goal on the execution)
         consts = (f"  Crashed = {{{', '.join(map(str, crashed))}}}\n  SilentByz = {{}}\n"
                   f"  StableFrom = {sc['gst'] + sc['chaos'] + 1000}\n  EndT = {sc['run_ms']}\n  Margin = 3500\n  RequireFast = FALSE\n")
+        NT.check(ctx, "nt_" + name, trace, stakes, [i for i in range(len(stakes)) if i not in byz], config=sc)
         rej = S.validate(ctx, "tv_" + name, trace, stakes, byz, module="Trace_Progress",
                          invs=S.TRACE_INVS + ["GoalAtEnd"], extra_consts=consts)
         if rej:
